@@ -483,7 +483,9 @@ def _collect_update_commands(
             for propkey in set(propkey_to_col).intersection(
                 state.committed_state
             ):
-                value = state_dict[propkey]
+                # a deleted attribute ("del obj.attr") has history but no
+                # value in the dict: it is persisted as NULL
+                value = state_dict.get(propkey, None)
                 col = propkey_to_col[propkey]
 
                 if hasattr(value, "__clause_element__") or isinstance(
